@@ -422,6 +422,15 @@ Proof.
     + destruct (r_mu (getr s r)); [discriminate|].
       inversion H; subst; clear H. simpl. eapply edge_on_frames; [|exact Inv]. keep_frames.
     + inversion H; subst; clear H. simpl. eapply edge_on_frames; [|exact Inv]. keep_frames.
+  - (* FOutAdd *)
+    destruct (Nat.ltb n (length (s_nodes s))); [|discriminate]. unfold g_add_out_released in H.
+    inversion H; subst; clear H. simpl.
+    eapply edge_on_frames; [|eapply edge_on_same; [| | exact Inv]].
+    + keep_frames.
+    + same_oi_tac.
+    + rewrite length_setn. lia.
+  - (* FPhInv *)
+    inversion H; subst; clear H. eapply edge_on_frames; [|exact Inv]. keep_frames.
 Qed.
 
 Lemma edge_on_perm : forall g fr fr', Permutation fr fr' -> edge_on g fr -> edge_on g fr'.
@@ -466,6 +475,9 @@ Proof.
     + intros to Hp. left. eapply pending_incl; [|exact Hp]. intros f Hf. apply in_app_iff. left. exact Hf.
     + unfold getN. same_oi_tac.
     + rewrite length_setn. lia.
+  - simpl in H. destruct (Nat.ltb slot (length (s_slots s))); [|discriminate]. inversion H; subst; clear H.
+    rewrite frames_spawn. simpl. eapply edge_on_frames; [|exact Inv].
+    intros to Hp. left. eapply pending_incl; [|exact Hp]. intros f Hf. apply in_app_iff. left. exact Hf.
 Qed.
 
 Lemma init_nodes_out : forall k j n, n_out (getn (init_nodes k j) n) = [].
